@@ -141,6 +141,7 @@ package consensus
 //@   modifies heap Payload.validatorIndex
 //@   requires p.hash == nil
 //@   ensures [C19] @set p.validatorIndex == i
+//@   ensures [C19] @othersKept forallOf(Payload, q, implies(q != p, q.validatorIndex == old(q.validatorIndex)))
 //@   ensures [C19] @noStaleHash p.hash == nil
 //@   ensures [C19] @restKept p.version == old(p.version) && p.prevHash == old(p.prevHash) && p.height == old(p.height) && p.message.cmType == old(p.message.cmType) && p.message.viewNumber == old(p.message.viewNumber) && p.message.payload == old(p.message.payload)
 //@ func (*Payload).UnmarshalUnsigned
@@ -205,10 +206,10 @@ package consensus
 // each carrying the hash of the stored proposal
 //@ func (*recoveryMessage).GetPrepareResponses
 //@   requires p != nil
-//@   loop 1: invariant 0 <= idx && idx <= len(m.preparationPayloads) && len(payloads) == len(m.preparationPayloads) && m.preparationHash != nil
-//@   loop 1: invariant forall(k, 0, idx, payloads[k] != nil && as(Payload, payloads[k]).message.cmType == dbft.PrepareResponseType && as(Payload, payloads[k]).message.viewNumber == p.ViewNumber() && as(Payload, payloads[k]).height == p.Height() && as(Payload, payloads[k]).hash == nil)
-//@   loop 1: invariant forall(k, 0, idx, as(Payload, payloads[k]).validatorIndex == m.preparationPayloads[k].ValidatorIndex)
-//@   loop 1: invariant forall(k, 0, idx, as(Payload, payloads[k]).message.payload != nil && as(prepareResponse, as(Payload, payloads[k]).message.payload).preparationHash == *m.preparationHash)
+//@   loop 1: invariant 0 <= idx && idx <= len(m.preparationPayloads) && len(retvar) == len(m.preparationPayloads) && m.preparationHash != nil
+//@   loop 1: invariant forall(k, 0, idx, retvar[k] != nil && as(Payload, retvar[k]).message.cmType == dbft.PrepareResponseType && as(Payload, retvar[k]).message.viewNumber == p.ViewNumber() && as(Payload, retvar[k]).height == p.Height() && as(Payload, retvar[k]).hash == nil)
+//@   loop 1: invariant forall(k, 0, idx, as(Payload, retvar[k]).validatorIndex == m.preparationPayloads[k].ValidatorIndex)
+//@   loop 1: invariant forall(k, 0, idx, as(Payload, retvar[k]).message.payload != nil && as(prepareResponse, as(Payload, retvar[k]).message.payload).preparationHash == *m.preparationHash)
 //@   ensures [C19] @storedHashKept m.preparationHash == old(m.preparationHash) && implies(m.preparationHash != nil, *m.preparationHash == old(*m.preparationHash))
 //@   ensures [C19] @none implies(m.preparationHash == nil, len(result) == 0)
 //@   ensures [C19] @onePerResponder implies(m.preparationHash != nil, len(result) == len(m.preparationPayloads))
@@ -219,10 +220,10 @@ package consensus
 // the other lists a recovery message gives back: one payload per stored entry, in the recovery message's slot
 //@ func (*recoveryMessage).GetCommits
 //@   requires p != nil
-//@   loop 1: invariant 0 <= idx && idx <= len(m.commitPayloads) && len(payloads) == len(m.commitPayloads)
-//@   loop 1: invariant forall(k, 0, idx, payloads[k] != nil && as(Payload, payloads[k]).message.cmType == dbft.CommitType && as(Payload, payloads[k]).message.viewNumber == p.ViewNumber() && as(Payload, payloads[k]).height == p.Height() && as(Payload, payloads[k]).hash == nil)
-//@   loop 1: invariant forall(k, 0, idx, as(Payload, payloads[k]).validatorIndex == m.commitPayloads[k].ValidatorIndex)
-//@   loop 1: invariant forall(k, 0, idx, as(Payload, payloads[k]).message.payload != nil && sametable(as(commit, as(Payload, payloads[k]).message.payload).signature, m.commitPayloads[k].Signature))
+//@   loop 1: invariant 0 <= idx && idx <= len(m.commitPayloads) && len(retvar) == len(m.commitPayloads)
+//@   loop 1: invariant forall(k, 0, idx, retvar[k] != nil && as(Payload, retvar[k]).message.cmType == dbft.CommitType && as(Payload, retvar[k]).message.viewNumber == p.ViewNumber() && as(Payload, retvar[k]).height == p.Height() && as(Payload, retvar[k]).hash == nil)
+//@   loop 1: invariant forall(k, 0, idx, as(Payload, retvar[k]).validatorIndex == m.commitPayloads[k].ValidatorIndex)
+//@   loop 1: invariant forall(k, 0, idx, as(Payload, retvar[k]).message.payload != nil && sametable(as(commit, as(Payload, retvar[k]).message.payload).signature, m.commitPayloads[k].Signature))
 //@   ensures [C19] @onePerEntry len(result) == len(m.commitPayloads)
 //@   ensures [C19] @sameSlot forall(k, 0, len(result), result[k] != nil && as(Payload, result[k]).message.cmType == dbft.CommitType && as(Payload, result[k]).message.viewNumber == p.ViewNumber() && as(Payload, result[k]).height == p.Height() && as(Payload, result[k]).hash == nil)
 //@   ensures [C19] @sameSender forall(k, 0, len(result), as(Payload, result[k]).validatorIndex == m.commitPayloads[k].ValidatorIndex)
@@ -230,18 +231,18 @@ package consensus
 //@ func (*recoveryMessage).GetChangeViews
 //@   requires p != nil
 //@   wraps cv.OriginalViewNumber+1
-//@   loop 1: invariant 0 <= idx && idx <= len(m.changeViewPayloads) && len(payloads) == len(m.changeViewPayloads)
-//@   loop 1: invariant forall(k, 0, idx, payloads[k] != nil && as(Payload, payloads[k]).message.cmType == dbft.ChangeViewType && as(Payload, payloads[k]).message.viewNumber == p.ViewNumber() && as(Payload, payloads[k]).height == p.Height() && as(Payload, payloads[k]).hash == nil)
-//@   loop 1: invariant forall(k, 0, idx, as(Payload, payloads[k]).validatorIndex == m.changeViewPayloads[k].ValidatorIndex)
+//@   loop 1: invariant 0 <= idx && idx <= len(m.changeViewPayloads) && len(retvar) == len(m.changeViewPayloads)
+//@   loop 1: invariant forall(k, 0, idx, retvar[k] != nil && as(Payload, retvar[k]).message.cmType == dbft.ChangeViewType && as(Payload, retvar[k]).message.viewNumber == p.ViewNumber() && as(Payload, retvar[k]).height == p.Height() && as(Payload, retvar[k]).hash == nil)
+//@   loop 1: invariant forall(k, 0, idx, as(Payload, retvar[k]).validatorIndex == m.changeViewPayloads[k].ValidatorIndex)
 //@   ensures [C19] @onePerEntry len(result) == len(m.changeViewPayloads)
 //@   ensures [C19] @sameSlot forall(k, 0, len(result), result[k] != nil && as(Payload, result[k]).message.cmType == dbft.ChangeViewType && as(Payload, result[k]).message.viewNumber == p.ViewNumber() && as(Payload, result[k]).height == p.Height() && as(Payload, result[k]).hash == nil)
 //@   ensures [C19] @sameSender forall(k, 0, len(result), as(Payload, result[k]).validatorIndex == m.changeViewPayloads[k].ValidatorIndex)
 //@ func (*recoveryMessage).GetPreCommits
 //@   requires p != nil
 //@   requires rmwf(m)
-//@   loop 1: invariant 0 <= idx && idx <= len(m.preCommitPayloads) && len(payloads) == len(m.preCommitPayloads)
-//@   loop 1: invariant forall(k, 0, idx, payloads[k] != nil && as(Payload, payloads[k]).message.cmType == dbft.PreCommitType && as(Payload, payloads[k]).message.viewNumber == p.ViewNumber() && as(Payload, payloads[k]).height == p.Height() && as(Payload, payloads[k]).hash == nil)
-//@   loop 1: invariant forall(k, 0, idx, as(Payload, payloads[k]).validatorIndex == m.preCommitPayloads[k].ValidatorIndex)
+//@   loop 1: invariant 0 <= idx && idx <= len(m.preCommitPayloads) && len(retvar) == len(m.preCommitPayloads)
+//@   loop 1: invariant forall(k, 0, idx, retvar[k] != nil && as(Payload, retvar[k]).message.cmType == dbft.PreCommitType && as(Payload, retvar[k]).message.viewNumber == p.ViewNumber() && as(Payload, retvar[k]).height == p.Height() && as(Payload, retvar[k]).hash == nil)
+//@   loop 1: invariant forall(k, 0, idx, as(Payload, retvar[k]).validatorIndex == m.preCommitPayloads[k].ValidatorIndex)
 //@   ensures [C19] @onePerEntry len(result) == len(m.preCommitPayloads)
 //@   ensures [C19] @sameSlot forall(k, 0, len(result), result[k] != nil && as(Payload, result[k]).message.cmType == dbft.PreCommitType && as(Payload, result[k]).message.viewNumber == p.ViewNumber() && as(Payload, result[k]).height == p.Height() && as(Payload, result[k]).hash == nil)
 //@   ensures [C19] @sameSender forall(k, 0, len(result), as(Payload, result[k]).validatorIndex == m.preCommitPayloads[k].ValidatorIndex)
@@ -254,7 +255,7 @@ package consensus
 //@   at call w.Encode<recoveryMessageAux>: assert [C19] @allLists sametable(arg0.PreparationPayloads, m.preparationPayloads) && sametable(arg0.PreCommitPayloads, m.preCommitPayloads) && sametable(arg0.CommitPayloads, m.commitPayloads) && sametable(arg0.ChangeViewPayloads, m.changeViewPayloads)
 //@ func (*recoveryMessage).DecodeBinary
 //@   at call r.Decode<recoveryMessageAux>: ghost gRecoveryAux = arg0
-//@   loop 1: invariant 0 <= idx && idx <= len(aux.PreCommitPayloads) && forall(k, 0, idx, len(aux.PreCommitPayloads[k].Data) == 4)
+//@   loop 1: invariant 0 <= idx && idx <= len(gRecoveryAux.PreCommitPayloads) && forall(k, 0, idx, len(gRecoveryAux.PreCommitPayloads[k].Data) == 4)
 //@   ensures [C19] @allLists implies(result == nil, sameelems(m.preparationPayloads, gRecoveryAux.PreparationPayloads) && sameelems(m.preCommitPayloads, gRecoveryAux.PreCommitPayloads) && sameelems(m.commitPayloads, gRecoveryAux.CommitPayloads) && sameelems(m.changeViewPayloads, gRecoveryAux.ChangeViewPayloads))
 //@   ensures [C19] @wellFormed implies(result == nil, rmwf(m))
 
